@@ -179,7 +179,11 @@ func (w *World) wireCall(n *Node, api string, limit int, pre []*pending.PreConfi
 // answer to FilteredEvents. v8 / v9 do not return transaction and event indexes: they are recovered
 // from the transaction hash and the event's data (the generator writes the event index into data[1]).
 func (w *World) rpcEvents(n *Node, q Q, pre []*pending.PreConfirmed, tok string, addrs []felt.Address, keys [][]felt.Felt) ([]blockchain.FilteredEvent, string, error) {
-	resp, err := w.wireCall(n, q.Api, q.Limit, pre, w.wireRequest(q, tok, addrs, keys))
+	req := w.wireRequest(q, tok, addrs, keys)
+	if w.reqMut != nil {
+		w.reqMut(req["params"].(map[string]any)["filter"].(map[string]any))
+	}
+	resp, err := w.wireCall(n, q.Api, q.Limit, pre, req)
 	if err != nil {
 		return nil, "", err
 	}
